@@ -282,6 +282,19 @@ pub fn lock_family<Ctx: Cx>() -> Vec<T> {
                 }
             }
         }
+        // lock values around every bit the unit decision could be (wrongly) based on, alone and in
+        // conjunction with a lock of each unit
+        for v in [1u32, 65_535, 65_536, 0x3f_ffff, 0x40_0000, 0x40_0001, 0x7f_ffff, 0x80_0000, 0x80_0001, 0xc0_0001, 0x100_0001, 0x4040_0001, 0x7fff_ffff] {
+            fam.push(T::Older(v));
+            fam.push(T::AndV(b(T::Verify(b(T::Older(v)))), b(T::Older(5))));
+            fam.push(T::AndV(b(T::Verify(b(T::Older(v)))), b(T::Older(4_194_309))));
+            fam.push(T::AndV(b(T::Verify(b(pk()))), b(T::AndV(b(T::Verify(b(T::Older(v)))), b(T::Older(4_194_305))))));
+        }
+        for v in [1u32, 499_999_999, 500_000_000, 500_000_001, 0x7fff_ffff] {
+            fam.push(T::After(v));
+            fam.push(T::AndV(b(T::Verify(b(T::After(v)))), b(T::After(10))));
+            fam.push(T::AndV(b(T::Verify(b(T::After(v)))), b(T::After(500_000_010))));
+        }
         let lifted: Vec<T> = fam.iter().flat_map(|f| crate::sat::contexts1::<Ctx>(f)).collect();
         fam.extend(lifted);
         fam.sort();
